@@ -12,14 +12,24 @@ def run(ctx):
     if exe is None:
         raise vlib.CheckError("harness build failed:\n" + log[-3000:])
     big = ctx.tier == "thorough"
-    args = ["-seed", ctx.seed, "-n", 6000 if big else 700, "-corpus", os.path.join(vlib.ROOT, "corpus", "c12.tsv")]
-    res = vlib.run_pipeline(ctx, exe, args, mcheck, timeout=1500)
-    # a second, shorter run with GNMI_SET_SIZE_LIMIT set (the limit checks of Set)
-    seed2 = str(int(ctx.seed) + 7919) if str(ctx.seed).lstrip("-").isdigit() else "7919"
-    first_lines = open(os.path.join(ctx.work, "lines.tsv")).read()
-    res2 = vlib.run_pipeline(ctx, exe, ["-seed", seed2, "-n", 1200 if big else 200, "-limit", 2], mcheck, timeout=1500)
-    open(os.path.join(ctx.work, "lines.tsv"), "w").write(first_lines + open(os.path.join(ctx.work, "lines.tsv")).read())
-    merge(res, res2)
+    base = int(ctx.seed) if str(ctx.seed).lstrip("-").isdigit() else 1
+    # every run is a fresh server instance (empty configuration first, then progressively populated); several
+    # shorter runs instead of one long one: independent histories, and a blocked transaction log stays contained
+    runs = [(base, 700, 0, True)] + ([(base + 1000 * i, 900, 0, False) for i in range(1, 8)] if big else [])
+    runs.append((base + 7919, 1200 if big else 200, 2, False))     # GNMI_SET_SIZE_LIMIT=2: the limit checks of Set
+    res = None
+    all_lines = []
+    for seed, n, limit, with_corpus in runs:
+        args = ["-seed", seed, "-n", n, "-limit", limit]
+        if with_corpus:
+            args += ["-corpus", os.path.join(vlib.ROOT, "corpus", "c12.tsv")]
+        r = vlib.run_pipeline(ctx, exe, args, mcheck, timeout=1500)
+        all_lines.append(open(os.path.join(ctx.work, "lines.tsv")).read())
+        if res is None:
+            res = r
+        else:
+            merge(res, r)
+    open(os.path.join(ctx.work, "lines.tsv"), "w").write("".join(all_lines))
     if big:
         fuzz(ctx, res)
     cross_check_in_coq(ctx, 150 if big else 40)
@@ -41,6 +51,8 @@ def run(ctx):
         "filtering, the back-end after a transaction is logged, onos-api constructors (their layout is transcribed, not verified)",
         "wire-decodability facts: elements of repeated message fields and messages inside a set oneof are non-nil (set_wire_ok/get_wire_ok); "
         "checked on every decoded request of the run",
+        "regexp/syntax is not modelled: must_compile is a recogniser of the fragment MatchWildcardRegexp can emit (proved total on its outputs), "
+        "Go's acceptance of that fragment is exercised by the differential stream",
         "Get and LeafSelectionQuery totality is proved for configurations whose live entries satisfy state_ok (tree builder and accessors "
         "do not panic on them); state_ok is evaluated on the implementation's stores after every accepted Set",
     ]
